@@ -534,6 +534,7 @@ def run(chk):
     with_signature(chk)
     key_map(chk)
     import c03
+    c03.builder_setters(chk)
     c03.nonce_obligations(chk, which=('nonce-display',))     # the "<key id>:<nonce hex>" part of the signed digest
     # a deviation from the recognised call structure alone is not a verdict (an equivalent implementation may
     # look different): it stands as a violation only when the real verifier also misbehaves on a concrete exchange
